@@ -88,6 +88,15 @@ def expectedPrimaryCases : List (List String × List String × List String) := [
   (["LPAREN"], ["exprList", "expr", "multiExpr"], ["RPAREN", "RPAREN", "IN"]),
   (["GETLINE"], ["optionalLValue", "primary"], ["LESS"])]
 
+/-- every token that starts a primary expression: the model's `primaryF` has a case for each (`unsupported` for regex
+    literals and builtin calls), and the harness has a tree builder for each (checked at run time against this list) -/
+def expectedPrimaryHeads : List String :=
+  ["NUMBER", "STRING", "DIV", "DIV_ASSIGN", "DOLLAR", "AT", "NOT", "ADD", "SUB", "INCR", "DECR", "NAME", "LPAREN", "GETLINE",
+   "F_SUB", "F_GSUB", "F_SPLIT", "F_MATCH", "F_RAND", "F_SRAND", "F_LENGTH", "F_SUBSTR", "F_SPRINTF", "F_FFLUSH", "F_COS", "F_SIN",
+   "F_EXP", "F_LOG", "F_SQRT", "F_INT", "F_TOLOWER", "F_TOUPPER", "F_SYSTEM", "F_CLOSE", "F_ATAN2", "F_INDEX"]
+
+theorem gen_matches_heads : primaryCaseHeads = expectedPrimaryHeads := by decide
+
 /-- parser.go's expression levels are the ones the model is written from -/
 theorem gen_matches_levels : levels = expectedLevels := by decide
 theorem gen_matches_primary : primaryCases = expectedPrimaryCases := by decide
